@@ -216,6 +216,9 @@ func plans(id, tier string) (Plan, bool) {
 			}
 		}
 		jobs = append(jobs, Job{Pkg: pkgSC, Harness: "c14_race", Race: true, MaxProcs: 16})
+		// many known values that all match one text (fan-out beyond any pool or limit inside the library)
+		jobs = append(jobs, Job{Pkg: pkgSC, Harness: "c14_race", Params: "values=70", Race: true, MaxProcs: 16})
+		jobs = append(jobs, Job{Pkg: pkgSC, Harness: "c14_sched", Instr: "v1", Params: "scenario=12;values=70;policy=delay;budget=0"})
 		jobs = append(jobs, Job{Pkg: pkgExtV1, Harness: "c14_license_sched", Instr: "v1", Shards: pick(4, 16)})
 		jobs = append(jobs, Job{Pkg: pkgExtV1, Harness: "c14_license_sched", Instr: "v1", Params: "scenario=1;budget=" + fmt.Sprint(pick(1, 2)), Shards: pick(4, 16)})
 		jobs = append(jobs, Job{Pkg: pkgExtV1, Harness: "c14_license_race", Race: true, MaxProcs: 16})
